@@ -82,7 +82,7 @@ func cmdAdmit(args []string) {
 		}
 	}
 	// the peer disappears while the node is between the two requests that end the establishment (needs a gate)
-	for k := 0; k < 8; k++ {
+	for k := 0; k < 18; k++ {
 		hooks, viol, inconcl := runAdmitGateScenario(col, k)
 		if inconcl != "" {
 			res.Inconclusive = append(res.Inconclusive, inconcl)
@@ -453,7 +453,17 @@ func runAdmitGateScenario(col *trace.Collector, k int) (hooks []verifhook.Record
 	case <-time.After(20 * time.Second):
 		return nil, nil, "gate not reached"
 	}
-	p.Close()                          // the peer goes away
+	cancelBackends := k >= 6
+	what := "the peer disconnected"
+	if cancelBackends {
+		// the BACKEND goes away (CancelBackends, as a configuration reload does) while the node keeps running: the
+		// session is registered but not established; which ready branch of the select wins is a coin flip, hence
+		// the repetitions
+		what = "the backends were cancelled"
+		go n.N.CancelBackends()
+	} else {
+		p.Close() // the peer goes away
+	}
 	time.Sleep(150 * time.Millisecond) // let the node's reader notice and cancel the session context
 	release()
 	label := fmt.Sprintf("%p", p.Pipe.A)
@@ -469,11 +479,36 @@ func runAdmitGateScenario(col *trace.Collector, k int) (hooks []verifhook.Record
 		}
 		if time.Now().After(deadline) {
 			viol = append(viol, Violation{"C11:connection-not-forgotten@establish_before_rebuild_req",
-				"the peer disconnected between the flood request and the rebuild request of the establishment; the session ended but the connection is still listed", map[string]any{"scenario": "gate-establish"}})
+				what+" between the flood request and the rebuild request of the establishment; the session ended but the connection is still listed", map[string]any{"cancel_backends": cancelBackends, "scenario": "gate-establish"}})
 
 			break
 		}
 		time.Sleep(10 * time.Millisecond)
+	}
+	if cancelBackends && len(viol) == 0 {
+		// the same peer returns through a new backend: it must be admitted (nothing of the dead session is left)
+		be := memnet.NewBackend()
+		if err := n.N.AddBackend(be); err != nil {
+			return nil, nil, "AddBackend after CancelBackends: " + err.Error()
+		}
+		p2, err := peer.Attach(be, "pg", int64(5000+k))
+		if err != nil {
+			return nil, nil, err.Error()
+		}
+		_ = p2.SendRoute(peer.RoutingUpdate{NodeID: "pg", UpdateID: fmt.Sprintf("g%d-back", k), UpdateEpoch: 7, UpdateSequence: 2, Connections: map[string]float64{}, ForwardingNode: "pg"})
+		dl := time.Now().Add(10 * time.Second)
+		for {
+			if _, ok := n.N.VerifSnapshot().Conns["pg"]; ok {
+				break
+			}
+			if p2.EOF() || time.Now().After(dl) {
+				viol = append(viol, Violation{"C11:returning-peer-refused-after-backend-cancel",
+					"after the backends were cancelled during an establishment, the same peer coming back through a new backend is not admitted", map[string]any{"scenario": "gate+cancel", "k": k}})
+
+				break
+			}
+			time.Sleep(10 * time.Millisecond)
+		}
 	}
 
 	return nil, viol, ""
